@@ -19,9 +19,11 @@ CONSTANTS MaxBuilders, SendContext
 ServerKeys == {"k1", "k2"}                 \* keys the keyshare server knows
 KeyIds == ServerKeys \cup {"k3", "none"}   \* "k3": a key id the server does not know; "none": entry without key id
 Kinds == {"D", "U", "Dnonrev", "Drange"}   \* builders; the last two have other commitments
-Entry(i, b) == [key |-> IF b.key \in ServerKeys THEN b.key ELSE "none", val |-> <<"val", i>>, comm |-> <<"comm", i>>,
+Entry(i, b) == [key |-> IF b.key \in ServerKeys \cup {"k3"} THEN b.key ELSE "none", val |-> <<"val", i>>, comm |-> <<"comm", i>>,
                 others |-> IF b.kind \in {"Dnonrev", "Drange"} THEN <<<<"oth", i, 1>>, <<"oth", i, 2>>>> ELSE <<>>]
-Builder == [kind : Kinds, key : ServerKeys \cup {"k4"}]      \* "k4": an issuer key that does not take part in the keyshare protocol
+Builder == [kind : Kinds, key : ServerKeys \cup {"k3", "k4"}]
+    \* "k4": an issuer key that does not take part in the keyshare protocol;
+    \* "k3": a key the USER names as taking part (in both messages, consistently) but the server does not know
 
 VARIABLES bl,          \* builder list
           ctx, flag,   \* session: context 1 (default) or 2, signature flag
@@ -64,6 +66,7 @@ UserChallenge == <<ctx, [i \in 1..Len(bl) |-> Contrib(Committed[i], i)], "nonce"
 
 \* C14
 Bound == Released => sent = Committed /\ AllKnown
-Complete == alt = NoAlt => Released /\ ServerChallenge = UserChallenge
+HonestUser == \A i \in 1..Len(bl) : bl[i].key # "k3"
+Complete == alt = NoAlt /\ HonestUser => Released /\ ServerChallenge = UserChallenge
 AlteredNeverReleased == alt # NoAlt => ~Released
 =============================================================================
